@@ -245,7 +245,7 @@ def check_proofs(pid, log, clean=False):
         if c.startswith("Closed"):
             res["assumptions"][t] = []
         else:
-            res["assumptions"][t] = sorted(set(re.findall(r"(?m)^([A-Za-z_][\w.']*)\s*:", c)))
+            res["assumptions"][t] = sorted(set(re.findall(r"(?m)^([A-Za-z_][\w.']*)\s*:", c)) - {"Axioms"})
     res["secs"] = round(time.time() - t0, 1)
     return res
 
